@@ -7,6 +7,7 @@ require (
 	github.com/orbs-network/govnr v0.2.0
 	github.com/orbs-network/lean-helix-go v0.0.0
 	github.com/orbs-network/scribe v0.1.0
+	github.com/pkg/errors v0.8.1
 	github.com/stretchr/testify v1.4.0
 )
 
@@ -15,7 +16,6 @@ require (
 	github.com/go-playground/ansi v2.1.0+incompatible // indirect
 	github.com/orbs-network/gojay v1.3.0 // indirect
 	github.com/orbs-network/membuffers v0.3.2 // indirect
-	github.com/pkg/errors v0.8.1 // indirect
 	github.com/pmezard/go-difflib v1.0.0 // indirect
 	gopkg.in/yaml.v2 v2.2.2 // indirect
 )
